@@ -180,7 +180,7 @@ class Unit:
                 inst_res["labels"].append(label)
                 idone = set()
                 for o in iobls:
-                    if o.kind == "cover" or not o.prop:
+                    if o.kind == "cover":
                         continue
                     key = (o.name, o.goal.get_id())
                     if key in idone:
